@@ -99,6 +99,80 @@ def case_modes(case):
     return r.done(outcome=[round(float(x), 9) for x in U.ravel()[:3]])
 
 
+HOPS = [
+    {"k": "call"},
+    {"k": "mode_no", "v": 4},
+    {"k": "mode_no", "v": 16},
+    {"k": "dim", "v": 2},
+    {"k": "dim", "v": 3},
+    {"k": "len", "v": 3.0},
+    {"k": "assign_var", "v": 0.8},
+    {"k": "mean_u", "v": 0.3},
+    {"k": "seed", "v": 77},
+]
+
+
+def case_history(case):
+    """a vector-field generator that was used and then changed (fewer / more modes, model dimension or
+    length scale in place, model re-assignment, mean velocity, seed) produces the field of a freshly
+    built generator with the final settings: divergence-free, same mean, same variance identity"""
+    r = R()
+    st = {"dim": case["dim"], "mode_no": 8, "seed": case["seed"], "mv": 1.0, "len": 2.0, "var": 1.7}
+    kw = OPTS.get(case["cls"], {})
+    m = getattr(gs, case["cls"])(dim=st["dim"], var=st["var"], len_scale=st["len"], **kw)
+    srf = gs.SRF(m, generator="VectorField", mode_no=st["mode_no"], seed=st["seed"], mean_velocity=st["mv"])
+    rng = np.random.RandomState(4)
+    srf(rng.uniform(-3, 3, size=(st["dim"], 5)))
+    for op in case["hist"]:
+        k = op["k"]
+        if k == "call":
+            srf(rng.uniform(-3, 3, size=(st["dim"], 4)))
+        elif k == "mode_no":
+            srf.generator.mode_no = op["v"]
+            st["mode_no"] = op["v"]
+        elif k == "dim":
+            if op["v"] == st["dim"]:
+                return r.done(skip="dimension unchanged")
+            srf.model.dim = op["v"]
+            st["dim"] = op["v"]
+        elif k == "len":
+            srf.model.len_scale = op["v"]
+            st["len"] = op["v"]
+        elif k == "assign_var":
+            srf.model = getattr(gs, case["cls"])(dim=st["dim"], var=op["v"], len_scale=st["len"], **kw)
+            st["var"] = op["v"]
+        elif k == "mean_u":
+            srf.generator.mean_u = op["v"]
+            st["mv"] = op["v"]
+        elif k == "seed":
+            srf.generator.seed = op["v"]
+            st["seed"] = op["v"]
+    d = st["dim"]
+    extra = {"cls": case["cls"], "dim": d, "last": case["hist"][-1]["k"]}
+    fm = getattr(gs, case["cls"])(dim=d, var=st["var"], len_scale=st["len"], **kw)
+    fresh = gs.SRF(fm, generator="VectorField", mode_no=st["mode_no"], seed=st["seed"], mean_velocity=st["mv"])
+    X = rng.uniform(-6, 6, size=(d, 12))
+    U, V = np.array(srf(X), dtype=float), np.array(fresh(X), dtype=float)
+    r.eq("vector field has one component per dimension", U.shape, (d, 12), **extra)
+    if U.shape == V.shape:
+        r.close("field after the history == field of a freshly built generator with the final settings", U, V, rtol=1e-10, atol=1e-11, **extra)
+    # API-only divergence of the object under test (central differences; bound from the fresh generator's modes)
+    g = fresh.generator
+    kv = np.array(g._cov_sample, dtype=float)
+    kn = np.linalg.norm(kv, axis=0)
+    if np.all(np.isfinite(kn)) and kn.max() < 40.0:
+        h = 1e-3
+        amp = abs(st["mv"]) * math.sqrt(st["var"] / st["mode_no"]) * (np.abs(g._z_1) + np.abs(g._z_2))
+        div = np.zeros(X.shape[1])
+        for i in range(d):
+            e = np.zeros((d, 1))
+            e[i] = h
+            div += (np.array(srf(X + e))[i] - np.array(srf(X - e))[i]) / (2 * h)
+        bound = h**2 / 6 * (kn**3 * amp).sum() * d * 2 + 1e-9 * (amp.sum() + abs(st["mv"]) + 1e-12) / h
+        r.true("after the history: finite-difference divergence below the truncation bound", bool(np.all(np.abs(div) <= bound)), info={"div": float(np.abs(div).max()), "bound": float(bound)}, **extra)
+    return r.done(outcome=[round(float(x), 9) for x in V.ravel()[:3]])
+
+
 def case_law(case):
     """law of the projected directions over the complete seed window"""
     r = R()
@@ -131,7 +205,7 @@ def case_law(case):
     return r.done(outcome=[round(float(x), 6) for x in mean])
 
 
-GROUPS = {"modes": case_modes, "direction_law": case_law}
+GROUPS = {"history": case_history, "modes": case_modes, "direction_law": case_law}
 
 CLASSES_2D = ["Gaussian", "Exponential", "Matern", "Stable", "Rational", "Integral", "Cubic", "Circular", "Spherical", "HyperSpherical", "SuperSpherical", "JBessel", "TPLSimple", "TPLGaussian", "TPLExponential", "TPLStable"]
 CLASSES_3D = [c for c in CLASSES_2D if c != "Circular"]
@@ -157,6 +231,15 @@ def run(chk):
         for ang in ([0.7], [0.7, 0.2, -0.5]):
             mc.append({"cls": "Gaussian", "dim": d, "mode_no": 3, "seed": 1, "mean_velocity": 1.0, "angles": ang[: d * (d - 1) // 2]})
     chk.run("modes", case_modes, mc, rule="model class (all valid in dim 2 / 3) x dim x mode_no {1,2,3,8} x seeds x mean_velocity {1, .3, -2, 0} (+ a rotated isotropic model): mode amplitudes solved from the public output, solenoidal condition per mode, mean, projector identity, exact variance identity, finite-difference divergence, structured mesh", max_skip_frac=0.6, chunk=4)
+    hc = []
+    for cls in (["Gaussian", "Exponential"] if tier == "quick" else ["Gaussian", "Exponential", "Matern", "Stable"]):
+        for d in (2, 3):
+            for L in (1, 2) if tier == "quick" else (1, 2, 3):
+                for hist in itertools.product(HOPS, repeat=L):
+                    if hist[-1]["k"] == "call":
+                        continue
+                    hc.append({"cls": cls, "dim": d, "seed": 5 + 32 * seed, "hist": list(hist)})
+    chk.run("history", case_history, hc, rule="model x dim x every history of length <= 2 (thorough 3) over {call, mode_no := 4 | 16 (from 8), model.dim := 2 | 3 in place, model.len_scale in place, model re-assignment, mean velocity, seed}: the object was used before; field equals a freshly built generator with the final settings and is divergence-free", chunk=8, max_skip_frac=0.5)
     lc = [{"cls": c, "dim": d, "mode_no": 64, "seed0": 64 * seed, "nseeds": 32 if tier == "quick" else 256} for d in (2, 3) for c in (["Gaussian", "Exponential"] if tier == "quick" else ["Gaussian", "Exponential", "Matern", "Rational"])]
     chk.run("direction_law", case_law, lc, rule="complete seed window (32 quick / 256 thorough seeds x 64 modes): pooled average of the squared projector components against (3/8, 1/8) in 2-D and (8/15, 1/15, 1/15) in 3-D with 6-sigma acceptance", nproc=8)
     chk.assume("wave vectors are read from the generator's documented sample array; configurations whose design matrix of modes is ill conditioned on the point set (nearly coincident wave vectors, |k| > 20) are skipped by a counted guard")
